@@ -160,6 +160,13 @@ def rule3_noearly(ctx, v, rule='C20.3'):
                 ctx.ob(rule, 'nanosleep: returns 0 only past the deadline', any(f.on_edge(c, p, anchor) for c, p in conds),
                        'the sleep ends only on the edge now > deadline', loc=anchor.loc)
     wait_loops(ctx, f, 'nanosleep', dts)
+    # the request may be the same object as the remainder (nanosleep(&ts, &ts)): nothing is stored through rem before the deadline
+    # has been computed from req
+    rem = f.param_named('rem') or 'a1'
+    early = [st for st in f.order if st.op == 'store' and same_value(f, f.ap(st.ops[1]).root, rem) and
+             any(f.can_reach(st, a_) for a_ in adds)]
+    ctx.ob(rule, 'nanosleep: the request is read before the remainder is written', not early,
+           'req and rem may alias; a remainder stored first turns the request into a zero-length sleep', loc=(early[0].loc if early else f.loc))
     for name, tryname, code, dl in (('myth_mutex_timedlock_body', 'myth_mutex_trylock_body', ETIMEDOUT, 'abstime'),
                                     ('myth_timedjoin_body', 'myth_tryjoin_body', EBUSY, 'abstime')):
         h = ctx.need_fn(v, name)
@@ -297,6 +304,8 @@ def run(ctx):
 SCHED = 'src/myth_sched_func.h'
 SYNC = 'src/myth_sync_func.h'
 MUTANTS = [
+    {'name': 'nanosleep clears *rem before reading *req (seed4 C20/m2)', 'expect': 'C20.3',
+     'edits': [(SCHED, "  if (req->tv_nsec > 999999999) return EINVAL;\n  hr_gettime(cur);", "  if (req->tv_nsec > 999999999) return EINVAL;\n  if (rem) { rem->tv_sec = 0; rem->tv_nsec = 0; }\n  hr_gettime(cur);")]},
     {'name': 'nanosecond range checked on the low 32 bits only (seed3 C20/m1)', 'expect': 'C20.1',
      'edits': [(SCHED, "  if (req->tv_nsec < 0) return EINVAL;\n  if (req->tv_nsec > 999999999) return EINVAL;", "  if ((unsigned)req->tv_nsec > 999999999U) return EINVAL;")]},
     {'name': 'native myth_usleep forwards to sleep (seconds)', 'expect': 'C20.6',
